@@ -199,6 +199,8 @@ def run(ctx):
                 nv += 1
                 break
     from vlib.valuecheck import replay_findings
+    from vlib import regress
+    regress.search(ctx, {"C09"})          # the shape-agnostic search step (DESIGN.md 12.8)
     replay_findings(ctx)
     ctx.cov["rule"] = ("systematic: 16 (property schema, default) pairs (scalars with and without constraints, untyped, one-level arrays, typed/untyped/referenced string enums, "
                        "referenced string definition) x 5 positions (optional, required, nested, object inside an array, definition) x documents with the property absent, null, "
